@@ -58,6 +58,15 @@ def hub_drives(runs=(150, 4000), big=(40, 1500)):
             dict(name="hubflow-big", menu=MENU_BIG, runs=big, len=40, consts=dict(MaxBatch=8, UserFunds=400000000))]
 
 
+MENU_RELEASE = {"items": {"bond": 4, "bond_st": 4, "unbond_b": 7, "unbond_st": 7, "advance": 9, "slash_unb": 4, "slash": 1, "withdraw": 9, "donate": 1, "convert_b_st": 1, "convert_st_b": 1},
+                "amax": 600, "dts": [2, 3, 5, 6], "slash_div": [2, 3, 10], "probes": ["withdraw"], "probe_every": 5,
+                "vary": {"fee": [[0, 5000000, 0], [0, 0, 0], [0, 500000000, 0]], "thr": [[1, 0, 0]], "periods": [[2, 5], [3, 3], [1, 7]]}}
+
+
+def release_drive(runs=(150, 4000)):
+    return dict(name="release", menu=MENU_RELEASE, runs=runs, len=45, consts=dict(MaxBatch=8))
+
+
 PLANS = {}
 
 PLANS["C01"] = dict(
@@ -67,6 +76,7 @@ PLANS["C01"] = dict(
     hunt=[hf_hunt("fee05")],
     sim=[hf_sim("fee05")],
     drive=hub_drives())
+PLANS["C01"]["drive"] = hub_drives() + [release_drive()]
 
 PLANS["C05"] = dict(invariants=["Inv_C05"], actions=["Act_C05"], rule="", mc=[], drive=[])
 
@@ -108,7 +118,7 @@ PLANS["C06"] = dict(
     mc=[hf_mc("nv2", consts=dict(NV=2, InitVals=[1, 2]), extra=dict(Amts=[1, 3, 10], Features=["core", "slash"]), depth=(3, 5)), hf_mc("nv1", depth=(4, 6), thorough_only=True)],
     hunt=[hf_hunt("nv3", consts=dict(NV=3, InitVals=[1, 2, 3]), extra=dict(SlashDiv=[2, 3, 10]))],
     sim=[hf_sim("nv2", consts=dict(NV=2, InitVals=[1, 2]))],
-    drive=hub_drives())
+    drive=hub_drives() + [release_drive()])
 
 PLANS["C07"] = dict(
     invariants=["Inv_C07"], actions=["Act_C07"], rule="non-trivial: behaviours with unbonds of >= 2 senders into one batch or a SendFrom unbond",
@@ -203,7 +213,8 @@ LAB = dict(Features=["rewardlab"], Amts=[1, 3], RewardAmts=[1, 3, 7], MaxTime=10
 MENU_LAB = {"items": {"mint_b": 5, "transfer_b": 6, "burn_b": 1, "deliver": 5, "index_update": 5, "claim": 5, "bond": 2, "unbond_b": 2, "convert_b_st": 1,
                       "convert_st_b": 1, "bond_st": 1, "from_b": 2, "allow_b": 2, "advance": 2},
             "amax": 40, "dts": [1, 3, 5], "probes": ["claim"], "probe_every": 4}
-MENU_LAB_BIG = menu(MENU_LAB, amax=3000000)
+# direct (unbacked) mints of millions of bSei make the hub rate tiny; the hub pricing paths are left out of the big-amount lab
+MENU_LAB_BIG = menu(MENU_LAB, amax=3000000, items={"bond": 0, "bond_st": 0, "unbond_b": 0, "convert_b_st": 0, "convert_st_b": 0})
 
 
 def lab_drives(runs=(150, 4000)):
@@ -233,7 +244,7 @@ PLANS["C18"] = dict(
                 runs=(150, 4000), len=40, consts=dict(MaxBatch=8))])
 
 DISP = dict(FundAmts=[0, 1, 7, 30], Prices=["D1", "D075", "D03", "D1000", "D0001"], Rates=["D0", "D005", "D03", "D1"],
-            BondedPairs=[[1, 1], [1, 3], [10, 1], [0, 5], [5, 0], [7, 7], [1000, 1]], EmitLen=0, OnlyOk=False)
+            BondedPairs=[1, 2, 3, 4, 5, 6, 7, 8], EmitLen=0, OnlyOk=False)
 DISP_PREFIX = [ex("usr1", "hub", {"k": "bond"}, [{"d": "usei", "a": 30}]), ex("usr2", "hub", {"k": "bond_for_st_sei"}, [{"d": "usei", "a": 10}])]
 DISP_CONSTS = dict(MaxBatch=3, UserFunds=1000, Prefix=DISP_PREFIX)
 
